@@ -505,7 +505,24 @@ fn hunt_setops() -> Result<(), String> {
     for am in (0..128u32).step_by(3) {
         let (a, oa) = build_sub(am, false, 0, 10);
         for bm in (0..128u32).step_by(5) {
-            let (b, ob) = build_sub(bm, false, 0x15, 50);
+          for bl in [false, true] {
+            let (b, ob) = build_sub(bm, bl, if bl { 0 } else { 0x15 }, 50);
+            // the *_mut twin on a sub-view of a against the whole of b: keys and presence pattern
+            for r1 in KEYS.iter() {
+                let mut a2 = a.clone(); let mut b2 = b.clone();
+                let k1 = okey(*r1);
+                let kk = |p: &(u8, u8)| okey((p.0 & !(0xffu16 >> p.1) as u8, p.1));
+                let r = std::panic::catch_unwind(std::panic::AssertUnwindSafe(|| -> Result<(), String> {
+                    let Some(mut va) = a2.view_mut_at(*r1) else { return Ok(()) };
+                    let g: Vec<(Vec<u8>, bool, bool)> = va.union_mut(&mut b2).map(|(p, l, r)| (kk(p), l.is_some(), r.is_some())).collect();
+                    let ua: std::collections::BTreeSet<Vec<u8>> = oa.keys().filter(|k| covers(&k1, k)).cloned().collect();
+                    let w: Vec<(Vec<u8>, bool, bool)> = ua.iter().chain(ob.keys().filter(|k| !ua.contains(*k))).map(|k| (k.clone(), ua.contains(k), ob.contains_key(k))).collect::<std::collections::BTreeSet<_>>().into_iter().collect();
+                    if g != w { return Err(format!("a = {:?} viewed (mutably) at {r1:?}, b = {:?}{}: union_mut yields (key, left present, right present) {g:?}, expected {w:?}", oa.values().collect::<Vec<_>>(), ob.values().collect::<Vec<_>>(), if bl { " (+ leftover value-less nodes)" } else { "" })); }
+                    Ok(())
+                }));
+                n += 1;
+                match r { Ok(Ok(())) => {}, Ok(Err(e)) => return Err(e), Err(_) => return Err(format!("union_mut on a sub-view panicked (a = {:?} at {r1:?}, b = {:?})", oa.values().collect::<Vec<_>>(), ob.values().collect::<Vec<_>>())) }
+            }
             for r1 in KEYS.iter() {
                 for r2 in KEYS.iter() {
                     let (Some(va), Some(vb)) = (a.view_at(*r1), b.view_at(*r2)) else { continue };
@@ -530,6 +547,7 @@ fn hunt_setops() -> Result<(), String> {
                     match r { Ok(Ok(())) => {}, Ok(Err(e)) => return Err(e), Err(_) => return Err(ctx("a set operation on sub-views", "a panic".into(), "no panic".into())) }
                 }
             }
+          }
         }
         for r1 in KEYS.iter() {
             for r2 in KEYS.iter() {
